@@ -2,6 +2,7 @@
 C12 — the flow split conserves mass and equalises subchannel pressure gradients.
 -/
 import Dassh.Gen.C12
+import Dassh.Gen.C12Geo
 import Dassh.Model.FlowSplit
 import Mathlib.Algebra.Order.Field.Basic
 import Mathlib.Analysis.SpecialFunctions.Pow.Real
@@ -96,5 +97,44 @@ theorem c12_gradient_const (m Cfa Cfb Dea Deb xb : ℝ) (hm : m < 2) (hCa : 0 < 
 /-- the algebraic facts assumed of the square root in `c12_gradient_iter` hold for the real one -/
 example (t0 t1 : ℝ) (h0 : 0 < t0) (h1 : 0 ≤ t1) : Real.sqrt (t1 / t0) * Real.sqrt (t1 / t0) = t1 / t0 :=
   Real.mul_self_sqrt (div_nonneg h1 h0.le)
+
+/-! ### Geometric splits (SE2, MIT)
+
+`Dassh.Gen.C12Geo` (regenerated from `flowsplit_se2.calculate_flow_split` / `flowsplit_mit.calculate_flow_split` on every run) holds
+the traced split factors with every real power replaced by a variable, and `mass_se2` / `mass_mit`: the split conserves mass under
+the pair relations `R_a * R_b = 1`.  The translator checks that the powers of the traced code come in such pairs (same base with
+exponents `e` / `-e`; reciprocal bases with the same exponent); below, the two laws of the real power that make the pair
+relations true, and the SE2 / MIT statements with `Real.rpow` put back. -/
+
+theorem c12_rpow_pair_neg (x e : ℝ) (hx : 0 < x) : x ^ e * x ^ (-e) = 1 := by
+  rw [← Real.rpow_add hx]; simp
+
+theorem c12_rpow_pair_inv (a b e : ℝ) (ha : 0 < a) (hb : 0 < b) : (a / b) ^ e * (b / a) ^ e = 1 := by
+  rw [← Real.mul_rpow (div_pos ha hb).le (div_pos hb ha).le]
+  have : a / b * (b / a) = 1 := by field_simp
+  rw [this, Real.one_rpow]
+
+/-- SE2 split over the reals: `lam` is the (positive) geometric group the code raises to `0.571` / `-0.571`, `de0`, `de1` the
+hydraulic diameters whose ratio it raises to `0.714`; for ALL exponents `e1`, `e2`. -/
+theorem c12_mass_se2 (A0 A1 A2 N0 N1 N2 lam de0 de1 e1 e2 : ℝ) (hA0 : 0 < A0) (hA1 : 0 < A1) (hA2 : 0 < A2)
+    (hN0 : 0 < N0) (hN1 : 0 < N1) (hN2 : 0 < N2) (hl : 0 < lam) (h0 : 0 < de0) (h1 : 0 < de1) :
+    N0 * A0 * Dassh.Gen.C12Geo.se2_x0 A0 A1 A2 N0 N1 N2 (lam ^ e1) ((de1 / de0) ^ e2) (lam ^ (-e1)) ((de0 / de1) ^ e2)
+      + N1 * A1 * Dassh.Gen.C12Geo.se2_x1 A0 A1 A2 N0 N1 N2 (lam ^ e1) ((de1 / de0) ^ e2) (lam ^ (-e1)) ((de0 / de1) ^ e2)
+      + N2 * A2 * Dassh.Gen.C12Geo.se2_x2 A0 A1 A2 N0 N1 N2 (lam ^ e1) ((de1 / de0) ^ e2) (lam ^ (-e1)) ((de0 / de1) ^ e2)
+      = N0 * A0 + N1 * A1 + N2 * A2 :=
+  Dassh.Gen.C12Geo.mass_se2 A0 A1 A2 N0 N1 N2 _ _ _ _ hA0 hA1 hA2 hN0 hN1 hN2
+    (Real.rpow_pos_of_pos hl _) (Real.rpow_pos_of_pos (div_pos h1 h0) _) (Real.rpow_pos_of_pos hl _)
+    (Real.rpow_pos_of_pos (div_pos h0 h1) _) (c12_rpow_pair_neg lam e1 hl) (c12_rpow_pair_inv de1 de0 e2 h1 h0)
+
+/-- the same for the MIT (Chiu-Rohsenow-Todreas) split -/
+theorem c12_mass_mit (A0 A1 A2 N0 N1 N2 lam de0 de1 e1 e2 : ℝ) (hA0 : 0 < A0) (hA1 : 0 < A1) (hA2 : 0 < A2)
+    (hN0 : 0 < N0) (hN1 : 0 < N1) (hN2 : 0 < N2) (hl : 0 < lam) (h0 : 0 < de0) (h1 : 0 < de1) :
+    N0 * A0 * Dassh.Gen.C12Geo.mit_x0 A0 A1 A2 N0 N1 N2 (lam ^ e1) ((de1 / de0) ^ e2) (lam ^ (-e1)) ((de0 / de1) ^ e2)
+      + N1 * A1 * Dassh.Gen.C12Geo.mit_x1 A0 A1 A2 N0 N1 N2 (lam ^ e1) ((de1 / de0) ^ e2) (lam ^ (-e1)) ((de0 / de1) ^ e2)
+      + N2 * A2 * Dassh.Gen.C12Geo.mit_x2 A0 A1 A2 N0 N1 N2 (lam ^ e1) ((de1 / de0) ^ e2) (lam ^ (-e1)) ((de0 / de1) ^ e2)
+      = N0 * A0 + N1 * A1 + N2 * A2 :=
+  Dassh.Gen.C12Geo.mass_mit A0 A1 A2 N0 N1 N2 _ _ _ _ hA0 hA1 hA2 hN0 hN1 hN2
+    (Real.rpow_pos_of_pos hl _) (Real.rpow_pos_of_pos (div_pos h1 h0) _) (Real.rpow_pos_of_pos hl _)
+    (Real.rpow_pos_of_pos (div_pos h0 h1) _) (c12_rpow_pair_neg lam e1 hl) (c12_rpow_pair_inv de1 de0 e2 h1 h0)
 
 end Dassh.Props.C12
